@@ -23,6 +23,8 @@ ACCEPT = [
     'SELECT b, d, sum(a) FROM #t WHERE a = 1 GROUP BY b, d PIVOT BY b, d', 'SELECT b, d, sum(a) FROM #t WHERE a = 1 GROUP BY 1, 2 PIVOT BY 1, 2',
     'SELECT a FROM #t WHERE a > %s', 'SELECT o > 1 FROM #t', 'SELECT length(b) FROM #t', 'SELECT a FROM #t LIMIT 0', 'SELECT DISTINCT a FROM #t',
     'SELECT * FROM #t', 'SELECT 1', 'SELECT a FROM #t WHERE b ~ "x"', 'SELECT a FROM (SELECT a FROM #t)',
+    'SELECT a, sum(c) FROM #t GROUP BY a, a', 'SELECT a, b, sum(c) FROM #t GROUP BY a, b, a', 'SELECT a, sum(c) FROM #t GROUP BY 1, a',
+    'SELECT a FROM #t WHERE a IN (SELECT a FROM #t WHERE a IN (SELECT a FROM #t))', 'SELECT a FROM (SELECT a FROM (SELECT a FROM #t))',
 ]
 REJECT = [
     # names
@@ -33,6 +35,13 @@ REJECT = [
     'SELECT a FROM #t WHERE sum(a) > 1', 'SELECT sum(sum(a)) FROM #t', 'SELECT a + sum(a) FROM #t', 'SELECT b, sum(a) FROM #t GROUP BY sum(a)',
     'SELECT b, sum(a) FROM #t GROUP BY 2', 'SELECT a, b, sum(c) FROM #t GROUP BY b', 'SELECT b, sum(a) FROM #t GROUP BY b HAVING a > 1',
     'SELECT b, sum(a) FROM #t GROUP BY b ORDER BY a + sum(a)', 'SELECT count(count(*)) FROM #t', 'SELECT max(a + sum(a)) FROM #t',
+    # a repeated group key does not stand in for an uncovered non-aggregate target
+    'SELECT a, b, sum(c) FROM #t GROUP BY a, a', 'SELECT a, b, sum(c) FROM #t GROUP BY a, 1', 'SELECT a, b, d, sum(c) FROM #t GROUP BY 1, a, 1',
+    'SELECT a, sum(c) FROM #t GROUP BY a, a ORDER BY b', 'SELECT b, d, count(*) FROM #t GROUP BY d, d',
+    # a SELECT as an ordinary operand is rejected at every nesting depth (inside a FROM subquery, inside an IN subquery)
+    'SELECT a FROM #t WHERE a IN (SELECT a FROM #t WHERE c > (SELECT 1 FROM #t))', 'SELECT a FROM (SELECT a FROM #t WHERE a > (SELECT 1 FROM #t))',
+    'SELECT a FROM #t WHERE a IN (SELECT (SELECT a FROM #t) FROM #t)', 'SELECT a FROM (SELECT length((SELECT b FROM #t)) AS a FROM #t)',
+    'SELECT a FROM #t WHERE a NOT IN (SELECT a FROM #t WHERE (SELECT a FROM #t) = 1)',
     # positional references
     'SELECT a FROM #t ORDER BY 0', 'SELECT a FROM #t ORDER BY 2', 'SELECT a, count(*) FROM #t GROUP BY a, b ORDER BY 3', 'SELECT a, count(*) FROM #t GROUP BY a HAVING count(*) > 0 ORDER BY 3',
     'SELECT b, sum(a) FROM #t GROUP BY b, d ORDER BY 4', 'SELECT a FROM #t ORDER BY length(b), 2', 'SELECT a, count(*) FROM #t GROUP BY a, b, 3', 'SELECT a, sum(c) FROM #t GROUP BY 0', 'SELECT a, sum(c) FROM #t GROUP BY 3',
@@ -52,7 +61,8 @@ LEDGER_ACCEPT = ['SELECT date, account FROM #postings', 'SELECT account, sum(pos
                  'SELECT date FROM year = 2020', 'SELECT date FROM OPEN ON 2020-01-01 CLOSE ON 2020-03-01 CLEAR', 'SELECT date FROM OPEN ON 2020-01-01 CLOSE',
                  'SELECT date FROM CLOSE', 'BALANCES FROM OPEN ON 2020-01-01 CLOSE', 'PRINT FROM OPEN ON 2020-02-01 CLOSE', 'JOURNAL "Assets" FROM CLOSE ON 2020-02-01',
                  'SELECT meta("ref"), entry_meta("ref"), any_meta("memo")', 'SELECT position.units.number, entry.flag']
-LEDGER_REJECT = ["SELECT meta['ref'] * position", "SELECT account WHERE tags > entry_meta('ref')", "SELECT meta['ref'] + tags", "SELECT position - any_meta('x')", "SELECT entry_meta('k') = meta", "SELECT balance + meta['x']",
+LEDGER_REJECT = ['SELECT tags, count(1) GROUP BY 1', 'SELECT tags, count(1) GROUP BY tags', 'SELECT account, links, count(1) GROUP BY account, 2', 'SELECT meta, count(1) GROUP BY 1',
+                 'SELECT sum(number), count(1) GROUP BY 1', "SELECT meta['ref'] * position", "SELECT account WHERE tags > entry_meta('ref')", "SELECT meta['ref'] + tags", "SELECT position - any_meta('x')", "SELECT entry_meta('k') = meta", "SELECT balance + meta['x']",
                  'SELECT date FROM OPEN ON 2020-03-01 CLOSE ON 2020-01-01', 'SELECT date FROM sum(number) > 1', 'SELECT position.nosuch', 'SELECT account.x', 'SELECT date FROM nosuchcol = 1',
                  'BALANCES AT nosuchfn', 'PRINT FROM nosuch = 1', 'SELECT date["k"]']
 
